@@ -3,6 +3,8 @@ package agreesim
 import (
 	"fmt"
 
+	"github.com/algorand/go-algorand/agreement"
+
 	"github.com/algorand/go-algorand/config"
 	"github.com/algorand/go-algorand/data/basics"
 	"github.com/algorand/go-algorand/data/committee"
@@ -155,7 +157,7 @@ func (s *Sim) craftAction(a, b, c int) {
 func (s *Sim) craftBundle(a, mut, c int, r basics.Round, p uint64) {
 	accts := Accounts()
 	var base UBundle
-	if len(s.seenBundles) > 0 && c%3 != 0 {
+	if len(s.seenBundles) > 0 && c%3 != 0 && mut%16 < 14 {
 		src := s.seenBundles[c%len(s.seenBundles)]
 		base = src
 		base.Votes = append([]VoteAuth(nil), src.Votes...)
@@ -172,6 +174,19 @@ func (s *Sim) craftBundle(a, mut, c int, r basics.Round, p uint64) {
 			for _, v := range s.seenVotes {
 				if v.R.Round == r && v.R.Period+1 >= p && v.R.Step != stepPropose {
 					fresh = append(fresh, v)
+				}
+			}
+			if c%3 == 1 || mut%16 >= 14 {
+				// certificates are the bundles that are consumed WITHOUT a vote tracker behind the verifier
+				// (catch-up, EnsureDigest): prefer cert-step material for a good share of the crafted bundles
+				var certs []UVote
+				for _, v := range s.seenVotes {
+					if v.R.Step == stepCert && v.R.Round+1 >= r {
+						certs = append(certs, v)
+					}
+				}
+				if len(certs) > 0 {
+					fresh = certs
 				}
 			}
 			if len(fresh) > 0 {
@@ -362,7 +377,50 @@ func (s *Sim) craftBundle(a, mut, c int, r basics.Round, p uint64) {
 		valid = "valid"
 	}
 	s.stat("craft_bundle_"+valid, 1)
+	if base.Step == stepCert {
+		s.authCheck(base, data, err == nil, what)
+	}
 	for _, t := range s.honestTargets((a >> 3) & (1<<uint(s.cfg.Nodes) - 1)) {
 		s.inject(t, protocol.VoteBundleTag, data, fmt.Sprintf("bundle/%s/%s", what, valid))
+	}
+}
+
+// authCheck runs the REAL agreement.Certificate.Authenticate (the entry point catch-up and
+// EnsureDigest rely on: there no vote tracker sits behind the bundle verifier to de-duplicate
+// senders a second time) on a crafted cert-step bundle, against a ledger view that has the stake
+// table and seeds, and compares the verdict with the reference checker.
+func (s *Sim) authCheck(b UBundle, data []byte, refValid bool, what string) {
+	blk, ok := s.blocks[b.Proposal.BlockDigest]
+	if !ok || blk.Round() != b.Round {
+		return
+	}
+	// a node whose ledger can serve the seed/balance rounds of b.Round
+	var n *Node
+	for _, x := range s.nodes {
+		if !x.adv && x.alive && x.led.next() >= b.Round {
+			n = x
+			break
+		}
+	}
+	if n == nil {
+		return
+	}
+	var cert agreement.Certificate
+	if err := protocol.Decode(data, &cert); err != nil {
+		return
+	}
+	if s.avv == nil {
+		s.avvPool = newSimPool()
+		s.avv = agreement.MakeAsyncVoteVerifier(s.avvPool)
+	}
+	in := &inst{sim: s, node: n, release: make(chan struct{}), zombie: false}
+	err := cert.Authenticate(blk, ledgerView{n.led, in}, s.avv)
+	s.stat("authenticate_checked", 1)
+	if err == nil {
+		s.stat("authenticate_accepted", 1)
+	}
+	if err == nil && !refValid {
+		_, rerr := RefBundleCheck(s, b)
+		s.violate("C04", "certificate-accepted", what, fmt.Sprintf("Certificate.Authenticate accepted a certificate for round %d (%s) that does not prove a quorum: %v", b.Round, what, rerr))
 	}
 }
